@@ -15,13 +15,14 @@ Theorem C19_construction : forall s, (Inv s /\ make s = Ok s) \/ (~ Inv s /\ mak
 Proof. exact make_spec. Qed.
 Print Assumptions C19_construction.
 
-(* after ANY history of assignments (ints, doubles, pairs, strings, enums, write+read; accepted or rejected) the
-   stored value is in the declared domain and the domain itself is the one declared at construction *)
-Theorem C19_inv : forall s0 s h s',
-  make s0 = Ok s -> run s h = Some s' -> Inv s' /\ domain_of s' = domain_of s0.
+(* after ANY history of assignments (ints, doubles incl. NaN/inf/out of range, pairs, strings, enums, write+read;
+   accepted or rejected) the history is defined (no undefined behaviour is reached), the stored value is in the
+   declared domain and the domain itself is the one declared at construction *)
+Theorem C19_inv : forall s0 s h,
+  make s0 = Ok s -> exists s', run s h = Some s' /\ Inv s' /\ domain_of s' = domain_of s0.
 Proof.
-  intros s0 s h s' M R. destruct (make_spec s0) as [[I E]|[_ E]]; rewrite E in M; [|discriminate].
-  inversion M; subst. exact (run_inv h s s' I R).
+  intros s0 s h M. destruct (make_spec s0) as [[I E]|[_ E]]; rewrite E in M; [|discriminate].
+  inversion M; subst. exact (run_inv h s I).
 Qed.
 Print Assumptions C19_inv.
 
@@ -38,20 +39,22 @@ Proof.
 Qed.
 Print Assumptions C19_accept_readback.
 
-(* the decision itself: whenever the conversion is defined, the assignment is accepted exactly when a converted
-   value exists and lies in the domain, and throws otherwise (no third outcome) *)
+(* the decision itself, for EVERY assignment: accepted exactly when a converted value exists and lies in the
+   domain, throws otherwise, and there is no third outcome *)
 Theorem C19_accept_iff : forall s a,
-  is_wr a = false -> ub_arg s a = false ->
+  is_wr a = false ->
   ((exists s', step s a = Ok s') <-> (exists r, convert s a = Some r /\ in_dom s r)) /\
-  (step s a = Throw <-> (convert s a = None \/ exists r, convert s a = Some r /\ ~ in_dom s r)).
+  (step s a = Throw <-> (convert s a = None \/ exists r, convert s a = Some r /\ ~ in_dom s r)) /\
+  step s a <> UB.
 Proof.
-  intros s a W U. split; split.
+  intros s a W. split; [split|split; [split|]].
   - intros [s' H]. destruct (step_ok s a s' H) as [[W2 _]|[_ (r & C & D & _)]]; [rewrite W in W2; discriminate|].
     exists r. split; assumption.
-  - intros (r & C & D). exact (step_accepts s a r W U C D).
+  - intros (r & C & D). exact (step_accepts s a r W C D).
   - intro H. apply step_throw in H. apply H.
-  - intros [C|(r & C & D)]; rewrite (step_factor s a W), U, C; [reflexivity|].
+  - intros [C|(r & C & D)]; rewrite (step_factor s a W), C; [reflexivity|].
     destruct (upd_of_spec s r) as [[D2 _]|[_ E]]; [contradiction|exact E].
+  - exact (step_no_ub s a).
 Qed.
 Print Assumptions C19_accept_iff.
 
@@ -67,11 +70,37 @@ Proof.
 Qed.
 Print Assumptions C19_reject_unchanged.
 
-(* the only undefined operations: a double that does not truncate into int64 (NaN, inf, |v| >= 2^63) assigned
-   to an integer or integer-pair parameter -- static_cast<int64_t>(double) in ::update *)
-Theorem C19_ub_exactly_float_to_int : forall s a, step s a = UB <-> ub_arg s a = true.
-Proof. exact step_ub. Qed.
-Print Assumptions C19_ub_exactly_float_to_int.
+(* fix 0c6dfeb: a double that is not convertible to int64 -- NaN, +-inf, v < -2^63 or v >= 2^63, decided with the very
+   double comparisons of `convertible` (translated kernel src_convertible) -- is REJECTED by integer and integer-pair
+   parameters (throws, hence unchanged by C19_reject_unchanged); a convertible one has a defined truncation inside
+   int64, so static_cast<int64_t> is only ever executed on its defined domain; no assignment reaches UB *)
+Theorem C19_nonconvertible_rejected :
+  (forall v mn mx c1 c2 f, conv_i f = false -> step (SIRange v mn mx c1 c2) (AFlt f) = Throw) /\
+  (forall v1 v2 mn mx c1 c2 c3 a b, conv_i a = false \/ conv_i b = false ->
+     step (SIPair v1 v2 mn mx c1 c2 c3) (AFPair a b) = Throw) /\
+  (forall f, conv_i f = false ->
+     PrimFloat.is_finite f = false \/ PrimFloat.leb dbl_lowest f = false \/
+     PrimFloat.ltb f (PrimFloat.opp dbl_lowest) = false) /\
+  (forall f, conv_i f = true -> exists z, f2i f = Some z /\ int64_min <= z <= int64_max) /\
+  (forall s a, step s a <> UB) /\ (forall c o, cstep c o <> CUB).
+Proof.
+  destruct nonconvertible_rejected as [H1 H2].
+  split; [exact H1|]. split; [exact H2|]. split; [exact conv_false_cases|]. split; [|split; [exact step_no_ub|exact cstep_no_ub]].
+  intros f C. destruct (conv_f2i f C) as [z E]. exists z. split; [exact E|].
+  unfold f2i in E. destruct (trunc_f f) as [t|]; [|discriminate]. destruct (in_int64 t) eqn:R; [|discriminate].
+  inversion E; subst. unfold in_int64 in R. apply andb_true_iff in R. destruct R as [R1 R2].
+  apply Z.leb_le in R1. apply Z.leb_le in R2. split; assumption.
+Qed.
+Print Assumptions C19_nonconvertible_rejected.
+
+(* what REMAINS outside the repaired path (explicit): make_integer / make_integer_pair called with double constants
+   cast them with an unguarded static_cast<int64_t> in make_scalar_ (include/nano/parameter.h) -- undefined exactly when
+   one of the programmer-given doubles does not truncate into int64; likewise value<int64_t>() of a floating-point
+   parameter whose value is >= 2^63 in magnitude (RUB in read_i64) *)
+Theorem C19_outside_construction_cast : forall v mn mx c1 c2,
+  make_integer_d v mn mx c1 c2 = UB <-> (f2i v = None \/ f2i mn = None \/ f2i mx = None).
+Proof. exact make_integer_d_ub. Qed.
+Print Assumptions C19_outside_construction_cast.
 
 (* type-mismatched reads and assignments throw; matching reads do not *)
 Theorem C19_type_mismatch : forall s,
@@ -102,11 +131,11 @@ Proof.
 Qed.
 Print Assumptions C19_unknown_name.
 
-(* every configurable reachable from the empty one by registrations and assignments has pairwise distinct parameter
-   names and every parameter (in particular every registered default) inside its domain *)
-Theorem C19_defaults_in_domain : forall h c,
-  crun [] h = Some c -> NoDup (names c) /\ Forall (fun p => Inv (pstore p)) c.
-Proof. intros h c H. exact (crun_inv h [] c CInv_nil H). Qed.
+(* every history of registrations and assignments on a configurable is defined, and the configurable it reaches has
+   pairwise distinct parameter names and every parameter (in particular every registered default) inside its domain *)
+Theorem C19_defaults_in_domain : forall h,
+  exists c, crun [] h = Some c /\ NoDup (names c) /\ Forall (fun p => Inv (pstore p)) c.
+Proof. intro h. exact (crun_total_inv h [] CInv_nil). Qed.
 Print Assumptions C19_defaults_in_domain.
 
 (* an accepted assignment through parameter(name) changes the value of that parameter and nothing else *)
@@ -161,6 +190,16 @@ Theorem C19_stoll_invalid : forall ws neg rest,
 Proof. exact stoll_no_digits. Qed.
 Print Assumptions C19_stoll_invalid.
 
+(* NOT proved in general (visible here, searched on the implementation on every run): an integer of magnitude <= 2^53
+   assigned to a floating-point parameter is read back, as int64, unchanged.  Only the listed boundary points
+   (0..299, 2^k-1, 2^k, 2^k+1 for k <= 52, 2^53-1, 2^53, ... and their negatives) are established, by computation. *)
+Definition C19_int_roundtrip_full_statement : Prop := forall z, - 2 ^ 53 <= z <= 2 ^ 53 -> f2i (i2f z) = Some z.
+
+Theorem C19_int_roundtrip_partial :
+  Forall (fun z => - 2 ^ 53 <= z <= 2 ^ 53 /\ f2i (i2f z) = Some z) rt_points /\ (length rt_points > 900)%nat.
+Proof. split; [exact int_roundtrip_points|vm_compute; repeat constructor]. Qed.
+Print Assumptions C19_int_roundtrip_partial.
+
 (* ---------------------------------------------------------------------------------------------- *)
 (* non-vacuity: the hypotheses are satisfiable and every outcome occurs                             *)
 Example C19_nonvacuous_int :
@@ -168,7 +207,11 @@ Example C19_nonvacuous_int :
   step (SIRange 5 0 10 LE LT) (AInt 9) = Ok (SIRange 9 0 10 LE LT) /\
   step (SIRange 5 0 10 LE LT) (AInt 10) = Throw /\
   step (SIRange 5 0 10 LE LT) (AFlt fx_2_7) = Ok (SIRange 2 0 10 LE LT) /\
-  step (SIRange 5 0 10 LE LT) (AFlt PrimFloat.nan) = UB /\ step (SIRange 5 0 10 LE LT) (AFlt fx_2p63) = UB /\
+  step (SIRange 5 0 10 LE LT) (AFlt PrimFloat.nan) = Throw /\ step (SIRange 5 0 10 LE LT) (AFlt fx_2p63) = Throw /\
+  conv_i fx_2p63 = false /\ conv_i fx_m2p63 = true /\ conv_i PrimFloat.infinity = false /\
+  step (SIRange 0 int64_min 0 LE LE) (AFlt PrimFloat.infinity) = Throw /\
+  step (SIRange 0 int64_min 0 LE LE) (AFlt fx_m2p63) = Ok (SIRange int64_min int64_min 0 LE LE) /\
+  make_integer_d PrimFloat.nan fx_0 fx_1 LE LE = UB /\
   step (SIRange 5 0 10 LE LT) (AStr [32; 55; 120] None None None) = Ok (SIRange 7 0 10 LE LT) /\
   step (SIRange 5 0 10 LE LT) (AStr [120] None None None) = Throw /\
   run (SIRange 5 0 10 LE LT) [AInt 9; AInt 10; AEnum [97]; AWriteRead [120]] = Some (SIRange 9 0 10 LE LT).
